@@ -42,6 +42,9 @@ func (ex *Exec) globalInit(st *State, g *ssa.Global) Value {
 		if fn := findGlobalInitializerCall(g); fn != nil {
 			panic(abortSignal{Kind: "NEEDINIT", Msg: "global:" + key})
 		}
+		if sl := findGlobalInitSlice(g); sl != nil {
+			panic(abortSignal{Kind: "NEEDINIT", Msg: "global:" + key})
+		}
 	}
 	return UninitV{Name: key}
 }
@@ -141,6 +144,19 @@ func (ex *Exec) decodeSnap(st *State, snap interface{}, t types.Type, name strin
 			e[i] = ex.decodeSnap(st, es[i], sl.Elem(), name, cache)
 		}
 		return ex.newSlice(st, e, len(e), ex.zeroSafe(sl.Elem()))
+	case "map":
+		mt, ok := t.Underlying().(*types.Map)
+		ks, _ := m["keys"].([]interface{})
+		vs, _ := m["vals"].([]interface{})
+		if !ok || len(ks) != len(vs) {
+			return UninitV{Name: name}
+		}
+		mo := &MapObj{}
+		for i := range ks {
+			mo.Keys = append(mo.Keys, ex.decodeSnap(st, ks[i], mt.Key(), name, cache))
+			mo.Vals = append(mo.Vals, ex.decodeSnap(st, vs[i], mt.Elem(), name, cache))
+		}
+		return MapV{Obj: st.NewObj(mo)}
 	}
 	return OpaqueV{Desc: "global " + name}
 }
@@ -192,7 +208,7 @@ func (ex *Exec) lookupType(tm map[string]interface{}) types.Type {
 
 var lazyInitPkgs = map[string]bool{
 	"unicode/utf8": true, "strconv": true, "encoding/binary": true, "math/bits": true, "encoding/hex": true,
-	"errors": true, "strings": true, "bytes": true, "math": true, "unicode": true,
+	"errors": true, "strings": true, "bytes": true, "math": true, "unicode": true, "io": true,
 	"github.com/onflow/fixed-point": true,
 }
 
